@@ -9,7 +9,8 @@ import vlib
 
 PID = "C07"
 PROTO_ARGS = ["-file", os.path.join(vlib.REPO, "internal/rules/repository_impl.go"), "-type", "repository",
-              "-name", "repoProtocol", "-methods", "FindRule,AddRuleSet,UpdateRuleSet,DeleteRuleSet"]
+              "-name", "repoProtocol", "-methods", "FindRule,AddRuleSet,UpdateRuleSet,DeleteRuleSet",
+              "-roles", "K=sync.Mutex,T=sync.RWMutex,index=*radixtree.Tree,known=[]rule.Rule,default=rule.Rule"]
 
 
 def regenerate(R):
